@@ -21,6 +21,13 @@ def _worker_ghost(it, w):
 
 def _setup_worker(it, env):
   _worker_ghost(it, env['self'])
+  _monitor(it, env['self'])
+
+
+def _monitor(it, w):
+  # ownership state of a worker (_worker_pool and the worker lock) is guarded by its state lock: "acquire / release under
+  # the state lock" - a change outside it lets another pool observe (and act on) a half-updated ownership
+  it.__dict__.setdefault('monitors', []).append((w, {'_worker_pool'}, [w.f['_lock']], w.f['_states_lock']))
 
 
 def _setup_pool(it, env):
@@ -28,6 +35,7 @@ def _setup_pool(it, env):
   ws = [it.fresh('Worker', f'w{i}') for i in range(2)]
   for w in ws:
     _worker_ghost(it, w)
+    _monitor(it, w)
   pool.f['_workers'] = VList(ws)
   env['w0'], env['w1'] = ws
   if 'workers' in env:
